@@ -1,7 +1,7 @@
 (* C01 — Two endpoints built on the library interoperate, even across transport loss.
    Statements only.  Nothing else may be added to this file. *)
 From MQ Require Import Base.Prelude Alloc.Alloc Framing.Framing Framing.FramingProofs Conn.Types Conn.ConnRecord Conn.Step
-                       Corr.ConnTrace Conn.Scope Conn.Session Conn.IdsQuota Conn.Own Conn.OwnStep Conn.Run Conn.PairQos Conn.PairQos5.
+                       Corr.ConnTrace Conn.Scope Conn.Session Conn.IdsQuota Conn.Own Conn.OwnStep Conn.Run Conn.PairQos Conn.PairQos5 Conn.PairSeq.
 
 (* what the pair property rests on, each proved for ALL states of one endpoint:
    (i) delivery in any fragmentation is the same byte stream (C09) *)
@@ -116,6 +116,23 @@ Theorem C01_recv_call_is_deliver_v5 : forall g c bytes p hdr body pb' rest,
 Proof. exact step_recv_is_deliver5. Qed.
 Print Assumptions C01_recv_call_is_deliver_v5.
 
+(* ANY NUMBER of messages in sequence (v3.1.1, QoS 1 and 2 mixed, identifiers registered, released and REUSED): the
+   executable run [run_seq] registers the identifier, publishes, and hands every packet one side requests to the other;
+   it answers [Fail] for anything off the protocol's path (a panic, an error event, a missing or extra request, a
+   notification that is not the message, an identifier not released) and [AppPre] only when the application's own
+   precondition fails (identifier out of range, in use or awaited at the sender, or still handled at the receiver).
+   From every pair of states satisfying the pair invariant the run never fails, the messages delivered are exactly
+   the messages sent, once each and in order, and the invariant holds again at the end. *)
+Theorem C01_pair_sequence_exactly_once : forall gs gr ps cs cr,
+  pair_inv gs cs cr -> Forall (fun p => v311_pub p 1 \/ v311_pub p 2) ps ->
+  match run_seq gs gr cs cr ps with
+  | Done cs' cr' d => d = ps /\ pair_inv gs cs' cr'
+  | AppPre => True
+  | Fail => False
+  end.
+Proof. exact run_seq_ok. Qed.
+Print Assumptions C01_pair_sequence_exactly_once.
+
 (* the tie of those statements to the step function that the correspondence runs against the code *)
 Theorem C01_send_call_is_send_publish : forall g c p q, c_version c = V311 -> v311_pub p q ->
   step g c (OSend p) = bindr (send_publish_v311 c p) (fun '(c', e) => Ok (c', e, [])).
@@ -205,3 +222,24 @@ Proof.
   match type of HO with ?A -> _ => assert (HQ : A) by (vm_compute; repeat split; try reflexivity; try discriminate; intros; try discriminate) end.
   specialize (HO HQ). clear HQ. revert HO. vm_compute. intro HO. split; [exact HO|]. repeat split; try reflexivity; try discriminate.
 Qed.
+
+(* the sequence theorem is not vacuous: after an ordinary handshake five messages, with identifier 1 used three times
+   and identifier 7 twice, are all delivered — the run answers Done, not AppPre *)
+Example C01_pair_sequence_nonvacuous :
+  let gs := mkCfg RClient 65535 2 in
+  let gr := mkCfg RServer 65535 2 in
+  let cn := mkPkt 1 V311 0 0 false false [] None 0 0 14 false 0 true 0 None None None None None in
+  let ca := mkPkt 2 V311 0 0 false false [] None 0 0 4 true 0 false 0 None None None None None in
+  let ops_s := [OSetAutoPub true; OSend cn; ORecv [32;2;0;0] (PROk ca)] in
+  let ops_r := [OSetAutoPub true; ORecv [16;12;0;4;77;81;84;84;4;2;0;0;0;0] (PROk cn); OSend ca] in
+  let pb := fun id q pay => mkPkt 3 V311 id q false false [116] None pay 0 (7 + pay) false 0 false 0 None None None None None in
+  let ps := [pb 1 1 0; pb 1 2 3; pb 7 2 0; pb 7 1 5; pb 1 2 1] in
+  match run_state gs (conn_new gs V311) ops_s, run_state gr (conn_new gr V311) ops_r with
+  | Some cs, Some cr =>
+      match run_seq gs gr cs cr ps with
+      | Done cs' cr' d => d = ps /\ c_qos2 cr' = [] /\ c_store cs' = [] /\ a_pool (c_pid cs') = [(1, 65535)]
+      | _ => False
+      end
+  | _, _ => False
+  end.
+Proof. vm_compute. repeat split; reflexivity. Qed.
